@@ -3,9 +3,11 @@
 # Output: /verif/seeded/RESULTS.tsv  (id, property, detected yes/no, exit, first violation line)
 cd /verif
 out=seeded/RESULTS.tsv
-: > $out
+[ -z "$*" ] && : > $out
+only="$@"
 for d in seeded/C*/; do
   id=$(basename $d)
+  if [ -n "$only" ] && ! echo " $only " | grep -q " $id "; then continue; fi
   prop=${id:0:3}
   conf=$(cat $d/confirm.json 2>/dev/null)
   if ! echo "$conf" | grep -q '"demo_with_patch_exit":[1-9]'; then
